@@ -78,7 +78,8 @@ Proof.
 Qed.
 Theorem uint2str_value_lemma : forall v ds, 0 <= v < 10 ^ 80 -> uint2str_fold v = Ok ds -> val_of_digits 0 ds = v.
 Proof.
-  intros v ds Hv H. unfold uint2str_fold in H. destruct (v <? 0) eqn:E; [lia|]. inversion H; subst.
+  intros v ds Hv H. unfold uint2str_fold in H. destruct (v <? 0) eqn:E; [lia|].
+  assert (Hd : ds = digits_fuel 80 v) by congruence. rewrite Hd. clear H Hd.
   apply digits_val; [change (Z.of_nat 80) with 80; lia | lia].
 Qed.
 (* ... in digits only, without a leading zero (so it is THE decimal representation) *)
